@@ -135,7 +135,12 @@ pub fn c08(tier: Tier) -> i32 {
             bump(c, "with_nonempty_prefix", 1);
         }
         let case = |check: &str, path: Option<&str>| json!({"kind": "partition", "expression": e.text, "check": check, "path": path});
-        let rooted_rep = first_token_is_rooted_repetition(&e.ast);
+        // the recorded finding is about globs ROOTED through a branch: prefix `/`, postfix = the
+        // whole expression
+        let rooted_rep = first_token_is_rooted_repetition(&e.ast)
+            && g.has_root().is_always()
+            && (prefix == Path::new("/") || prefix.as_os_str().is_empty())
+            && postfix.as_ref().map_or(false, |p| p.to_string() == e.text);
         let flagged = leading_flag_before_removed(&e.ast);
         if let Some(post) = &postfix {
             // never rooted
